@@ -23,6 +23,7 @@ import flow  # noqa: E402
 
 
 from verdict import NoVerdict  # noqa: E402
+import inline  # noqa: E402
 
 
 class Ctx:
@@ -131,7 +132,12 @@ def main(argv):
         for cfg in cfgs:
             F[cfg] = Facts(cfg, dirs[cfg])
             flow.register_enums(F[cfg])
+        inlined = []
+        for cfg in cfgs:
+            inlined += ['%s: %s -> %s' % (cfg, c, p) for c, p in inline.apply(F[cfg])]
         ctx = Ctx(prop, tier, F, key)
+        for x in sorted(set(inlined)):
+            ctx.note('helper spliced into its caller for analysis (inline.py): ' + x)
         mod.run(ctx)
         # positive controls: the rule set must fire on its own violating twins
         if hasattr(mod, 'controls'):
